@@ -1,6 +1,6 @@
 """C05 - decoded data re-encodes to a valid, equivalent document; strict encode is sound.
 
-Part (a), round trip.  For every schema template of mc/gen/docs_c05.py (28 templates from a small grammar),
+Part (a), round trip.  For every schema template of mc/gen/docs_c05.py (29 templates from a small grammar),
 every valid instance = every word of length <= 4 of each content model (reference DFA of mc/ref/regex.py) x
 mixed-text pattern x leaf / attribute values from a 3-value catalogue (value deviations <= 2), for every
 converter class and every option set (option deviations <= 1 quick, <= 2 thorough):
@@ -36,9 +36,9 @@ from mc.gen import docs_c05 as G
 
 ID = 'C05'
 TITLE = 'Decoded data re-encodes to a valid, equivalent document; strict encode is sound'
-RULE = ('28 schema templates (nested complex types, attributes, simple content + attributes, mixed content, list-typed '
+RULE = ('29 schema templates (nested complex types, attributes, simple content + attributes, mixed content, list-typed '
         'leaves and attributes incl. empty lists, qualified / unqualified / two-namespace / no-namespace, contiguous and '
-        'non-contiguous repeated children, nillable / optional leaves, choice, all-group, empty content) x every word of '
+        'non-contiguous repeated children, repeated groups, nillable / optional leaves, choice, all-group, empty content) x every word of '
         'length <= 4 of every content model (all occurrences of one type share a word; <= 12 elements) x mixed-text '
         'pattern {none, head, tail, between, all} x value deviations <= 2 over the slots (leaf text, attribute, '
         'xsi:nil) x 9 converters x option sets over {preserve_root, force_list, force_dict, decimal_type=float|str, '
@@ -60,10 +60,11 @@ ASSUMPTIONS = [
     'defaults and fixed values are not in the alphabet (the statement does not say whether a filled default is a difference)',
     'instances the library itself does not accept are counted as contested and skipped (content-model acceptance is C01)',
     'encode() receives the namespace map of the source document, as the library tests and documentation do',
-    '(b) discrepancy keys name template, converter, options, mutation operator, path shape and outcome (exception '
-    'class and raising function, or first validation error of the returned tree); the recorded case is one witness',
+    '(b) discrepancy keys name template, converter, mutation operator, path shape and outcome (exception class and '
+    'raising function, or first validation error of the returned tree); for pairs template, converter and outcome; '
+    'the recorded case (instance, options, mutation chain) is the smallest witness',
 ]
-BUDGET_S = {'quick': 1500, 'thorough': 5400}
+BUDGET_S = {'quick': 3600, 'thorough': 6 * 3600}
 
 CONVS = [
     ('jsonml', xmlschema.JsonMLConverter, 'always'),
@@ -318,7 +319,7 @@ def applicable(ctx, conv, optset):
 
 
 def key_a(inst, conv, optset, result):
-    return 'C05|a|%s|%s|%s|%s' % (inst.ident(), conv, optkey(optset), result)
+    return 'C05|a|%s|%s|%s' % (inst.ident(), conv, result)
 
 
 def eval_a(inst, conv, optset, acc=None):
@@ -530,8 +531,8 @@ def norm_reason(r):
     return r[:80]
 
 
-def key_b(tplname, conv, optset, mname, label, detail):
-    return 'C05|b|%s|%s|%s|%s|%s:%s' % (tplname, conv, optkey(optset), mname, label, detail)
+def key_b(tplname, conv, mname, label, detail):
+    return 'C05|b|%s|%s|%s|%s:%s' % (tplname, conv, mname, label, detail)
 
 
 def eval_b(inst, conv, optset, chain, acc=None, seen=None, pairs=False):
@@ -551,7 +552,7 @@ def eval_b(inst, conv, optset, chain, acc=None, seen=None, pairs=False):
     base = canon(datum)
 
     def judge(mutant, descs, names, text):
-        h = runner.h64('%s|%s|%s' % (conv, optkey(optset), text))
+        h = runner.h64('%s|%s|%s|%s' % (conv, optkey(optset), sorted(nsmap), text))
         if seen is not None and h in seen:
             label, detail = seen[h]              # same mutant reached from another instance: outcome re-used
             if acc is not None:
@@ -573,7 +574,11 @@ def eval_b(inst, conv, optset, chain, acc=None, seen=None, pairs=False):
                        {'escaped': 'raised ' + str(detail), 'returned-none': 'returned None without an error',
                         'unserialisable': 'returned a tree that cannot be serialised (%s)' % detail,
                         'invalid-output': 'returned XML the schema rejects (%s)' % detail}[label], short(mutant)))
-            found.append((key_b(tplname, conv, optset, mname, label, detail), what, descs))
+            if len(names) == 1:
+                key = key_b(tplname, conv, mname, label, detail)
+            else:               # pairs: one key per (template, converter, outcome); the case is a witness
+                key = 'C05|b2|%s|%s|%s:%s' % (tplname, conv, label, detail)
+            found.append((key, what, descs))
 
     if chain is not None:
         m, names = datum, []
@@ -630,7 +635,10 @@ def n_instances(ctx_decls, tpl, skels, maxdev):
 def shards(tier, seed):
     out = []
     bs = b_space(tier)
+    only = os.environ.get('C05_ONLY', '').split(',') if os.environ.get('C05_ONLY') else None   # developer aid
     for tpl in G.TEMPLATES:
+        if only and tpl['name'] not in only:
+            continue
         decls = G.Decls(tpl)
         skels = G.skeletons(tpl, decls)
         n, _ = n_instances(decls, tpl, skels, VALDEV)
@@ -741,7 +749,8 @@ def run_b(ctx, tier, seed, chunk, chunks, acc):
 
 def finish(tier, seed, acc):
     """Deterministic witness per key: the smallest recorded case."""
-    acc.discs.sort(key=lambda d: (d[0], len(d[2].get('skel', '')), d[2].get('dev', ''), str(d[2].get('chain'))))
+    acc.discs.sort(key=lambda d: (d[0], len(d[2]['opts']), d[2]['opts'], len(d[2]['skel']), d[2]['skel'],
+                                  len(d[2]['dev']), d[2]['dev'], str(d[2].get('chain'))))
 
 
 def replay(case):
